@@ -256,7 +256,8 @@ def run_check(pid: str, tier: str, explain: Optional[str] = None) -> int:
         'seed': seed,
         'level': 'other',
         'coverage': {
-            'explanation': spec.explanation + ' NOT decided by this check: ' + spec.not_decided,
+            'explanation': spec.explanation + (' Supplementary rule sets (rules added after the seeded rounds and the mutation sweep; same engine): '
+                                                + _hooks.describe(pid) + '.' if _hooks.describe(pid) else '') + ' NOT decided by this check: ' + spec.not_decided,
             'obligations': len(ctx.obligations),
             'discharged': discharged,
             'evaluations': len(ctx.obligations),
